@@ -185,6 +185,7 @@ public:
             lane = next_lane( /*out_of=*/N );
             __TBB_ASSERT( lane < N, "Incorrect lane index." );
         } while( ! (succeed = try_push( source, lane )) );
+        __TBB_VERIF_POINT(vp_stream_push, this, lane);
     }
 
     //! Try finding and popping a task using passed functor for lane selection. Last used lane is
@@ -198,6 +199,7 @@ public:
             __TBB_ASSERT(lane < N, "Incorrect lane index.");
             popped = try_pop(lane);
         }
+        __TBB_VERIF_POINT(vp_stream_pop, this, popped != nullptr);
         return popped;
     }
 
